@@ -164,9 +164,9 @@ func workerMain() {
 			extra = "-"
 		}
 		// memory proportional to the input: everything allocated by the decode (and the re-encode of
-		// its result) against 1 KiB per input byte plus 16 MiB
+		// its result) against 512 bytes per input byte plus 256 KiB (decoding a 64 KiB frame of 5-byte match fields allocates about 130 bytes per input byte, re-encoding and the field dump included)
 		runtime.ReadMemStats(&ms1)
-		if alloc := ms1.TotalAlloc - ms0.TotalAlloc; outcome < 2 && alloc > uint64(len(b))*1024+16<<20 {
+		if alloc := ms1.TotalAlloc - ms0.TotalAlloc; outcome < 2 && alloc > uint64(len(b))*512+256<<10 {
 			outcome, extra = 4, fmt.Sprintf("allocated_%d_MiB_for_%d_bytes", alloc>>20, len(b))
 		}
 		fmt.Fprintf(out, "%d %s %s %d %s\n", outcome, hex.EncodeToString(re)+".", extra, lenv, chash)
